@@ -9,6 +9,7 @@ import (
 	"runtime"
 	"sort"
 	"strings"
+	"time"
 
 	"github.com/nlnwa/whatwg-url/canonicalizer"
 	"github.com/nlnwa/whatwg-url/url"
@@ -381,8 +382,21 @@ func strsOf(q []fw.QS) []string {
 	return out
 }
 
-// schedChild runs one schedule in a fresh process. mode is "cold" or "warm".
+// schedChild runs one schedule in a fresh process. mode is "cold" or "warm". A failure of the harness itself
+// (fork/exec refused, child killed before it could answer: seen on an overloaded machine) is retried; it is
+// never a verdict about the library.
 func schedChild(cs *fw.Case, mode string) *fw.Finding {
+	var f *fw.Finding
+	for try := 0; try < 4; try++ {
+		if f = schedChildOnce(cs, mode); f == nil || f.Class != "harness" {
+			return f
+		}
+		time.Sleep(time.Duration(200*(try+1)) * time.Millisecond)
+	}
+	return f
+}
+
+func schedChildOnce(cs *fw.Case, mode string) *fw.Finding {
 	dir, err := os.MkdirTemp(os.Getenv("VERIF_SCRATCH"), "sched-exec-")
 	if err != nil {
 		return fw.F("harness", "", "mkdtemp: %v", err)
